@@ -1,5 +1,4 @@
 package main
 
-func genConsts(p *pkgInfo, out string)   {}
 func genShape(p *pkgInfo, out string)    {}
 func genLocks(p *pkgInfo, out string)    {}
